@@ -18,13 +18,14 @@ import (
 // ReadersCase: readers of the queue set (metrics, debug endpoints use Iterate/GetByName) run while the
 // events handler adds tasks under the set lock. Real threads: the schedule is sampled, not owned.
 type ReadersCase struct {
+	Workers bool `json:"workers"`
 	Queues  int `json:"queues"`
 	Readers int `json:"readers"`
 	Adds    int `json:"adds"`
 }
 
 func genReaders(t *rapid.T) ReadersCase {
-	return ReadersCase{Queues: rapid.IntRange(1, 4).Draw(t, "queues"), Readers: rapid.IntRange(1, 4).Draw(t, "readers"), Adds: rapid.IntRange(200, 3000).Draw(t, "adds")}
+	return ReadersCase{Workers: rapid.Bool().Draw(t, "workers"), Queues: rapid.IntRange(1, 4).Draw(t, "queues"), Readers: rapid.IntRange(1, 4).Draw(t, "readers"), Adds: rapid.IntRange(200, 3000).Draw(t, "adds")}
 }
 
 func runReaders(c ReadersCase) (ev.Info, error) {
@@ -34,10 +35,20 @@ func runReaders(c ReadersCase) (ev.Info, error) {
 	tqs := queue.NewTaskQueueSet()
 	tqs.WithContext(ctx)
 	names := []string{"main", "q1", "q2", "q3"}[:c.Queues]
-	for _, n := range names {
-		tqs.NewNamedQueue(n, func(task.Task) queue.TaskResult { return queue.TaskResult{Status: queue.Success} })
-	}
 	var progress atomic.Int64
+	var handled atomic.Int64
+	for _, n := range names {
+		tqs.NewNamedQueue(n, func(task.Task) queue.TaskResult {
+			handled.Add(1)
+			progress.Add(1)
+			return queue.TaskResult{Status: queue.Success}
+		})
+		qh.FastTimings(tqs.GetByName(n))
+	}
+	if c.Workers {
+		// workers run, as in the operator: every handled task makes the worker dump its queue
+		tqs.Start()
+	}
 	stop := make(chan struct{})
 	for r := 0; r < c.Readers; r++ {
 		go func() {
@@ -64,10 +75,27 @@ func runReaders(c ReadersCase) (ev.Info, error) {
 		close(done)
 	}()
 	last := int64(-1)
+	stall := time.Now()
 	for {
 		select {
 		case <-done:
+			if c.Workers && handled.Load() < int64(c.Adds) {
+				// wait for the workers to drain the queues (watchdog below still applies)
+				select {
+				case <-time.After(time.Millisecond):
+				}
+				if p := progress.Load(); p != last {
+					last = p
+					stall = time.Now()
+				} else if time.Since(stall) > 3*time.Second {
+					return info, fmt.Errorf("queue workers stopped making progress: %d of %d tasks handled, nothing moved for 3s (a worker or the set lock is deadlocked)", handled.Load(), c.Adds)
+				}
+				continue
+			}
 			close(stop)
+			if c.Workers {
+				return info, nil
+			}
 			total := 0
 			for _, n := range names {
 				total += tqs.GetByName(n).Length()
@@ -86,7 +114,7 @@ func runReaders(c ReadersCase) (ev.Info, error) {
 	}
 }
 
-const ruleReaders = "real threads: 1-4 goroutines call TaskQueueSet.Iterate in a loop (as the metrics loop and the debug endpoints do) while another appends 200-3000 tasks through DoWithLock exactly as the events handler does; watchdog: if neither side makes progress for 3 s the set lock is deadlocked; at the end every added task is in its queue. Schedule is sampled, not owned. Non-trivial: >= 2 readers or >= 2 queues."
+const ruleReaders = "real threads: optionally the queue workers run (each handled task makes the worker dump its queue); 1-4 goroutines call TaskQueueSet.Iterate in a loop (as the metrics loop and the debug endpoints do) while another appends 200-3000 tasks through DoWithLock exactly as the events handler does; watchdog: if neither side makes progress for 3 s the set lock is deadlocked; at the end every added task is in its queue. Schedule is sampled, not owned. Non-trivial: >= 2 readers or >= 2 queues."
 
 func TestReaders(t *testing.T) {
 	ev.Main(t, ev.Spec[ReadersCase]{Property: "C03", Part: "readers", Rule: ruleReaders, Gen: genReaders, Run: runReaders})
